@@ -160,7 +160,101 @@ def c16(run):
     tv_pipeline(run, 6000 if run.tier == "thorough" else 1200)
 
 
+def gen_rules(run, mode, n=None):
+    """S side: TLC runs the Grammar generator; the ASTs (one JSON line each) are written to .build/rules-<pid>-<mode>.json"""
+    path = os.path.join(BUILD, "rules-%s-%s.json" % (run.pid, mode))
+    res = run_tlc("GEN_Rules_" + mode, "gen/GEN_Rules.tla", "gen/GEN_Rules_%s_%s.cfg" % (mode, run.tier), env=run.known_env(), timeout=3000)
+    with open(path, "w") as f:
+        for x in res.printed:
+            f.write(x + "\n")
+    run.add_tlc("GEN_Rules_" + mode, res, "S: Grammar!%s generator, one rule AST per seed" % mode)
+    run.cov["jobs"]["GEN_Rules_" + mode]["asts"] = len(res.printed)
+    if not res.printed:
+        raise ToolError("generator produced no rules")
+    return path
+
+
+def tv_laws(run, law, records_path, summary, classify=None):
+    """I->S: TLC evaluates the law on every recorded call; rejected records are mapped back to their inputs"""
+    res = run_tlc("TV_Laws_" + law, "tv/TV_Laws.tla", "tv/TV_Laws_%s.cfg" % law, env=dict(run.known_env(), TRACE=records_path), timeout=6000, heap="12g")
+    run.add_tlc("TV_Laws_" + law, res, "I->S: %s law of spec/tv/TV_Laws.tla evaluated by TLC on every recorded call" % law)
+    nrec = summary["extra"].get("records", 0)
+    rejected = sorted(json.loads(x)["rejected_record"] for x in res.printed if isinstance(x, str) and "rejected_record" in x)
+    run.cov["jobs"]["TV_Laws_" + law].update({"records": nrec, "rejected": len(rejected)})
+    run.cov["traces_validated_against_impl"] += nrec
+    if res.distinct != 2 * nrec:
+        raise ToolError("TV_Laws_%s examined %d states for %d records" % (law, res.distinct, nrec))
+    if rejected:
+        metas = {}
+        want = set(rejected)
+        for line in open(records_path + ".meta"):
+            m = json.loads(line)
+            if m["id"] in want:
+                metas[m["id"]] = m
+        for rid in rejected:
+            m = metas.get(rid, {"id": rid})
+            kf = classify(m) if classify else None
+            if kf and kf in run.known_defs:
+                h = run.known_hits.setdefault(kf, [0, m]); h[0] += 1
+            else:
+                run.violation("TV_Laws_" + law, {"rejected_record": m, "classified_as": kf})
+    return rejected
+
+
+def law_pipeline(run, law, modes, nwords, classify=None):
+    ensure_corpus()
+    for mode in modes:
+        rules = gen_rules(run, mode)
+        out = os.path.join(BUILD, "rec-%s-%s.ndjson" % (run.pid, mode))
+        summary, _ = run_harness(["record", law, rules, out, str(nwords)], env=run.known_env(), timeout=6000)
+        run.add_summary("record_%s_%s" % (law, mode), summary, traces=False)
+        tv_laws(run, law, out, summary, classify)
+        # binding selftest on the first mode: a corrupted record must be rejected
+        for f in (rules, out, out + ".meta"):
+            try: os.remove(f)
+            except OSError: pass
+
+
+def c06(run):
+    run.assumptions += TRUSTED + ["the planted literal q never occurs in generated words (inventory of harness/src/laws.rs)"]
+    mc_job(run, "MC_Scan", "mc/MC_Scan.tla", "mc/MC_Scan%s.cfg" % ("_thorough" if run.tier == "thorough" else ""),
+           "M: on the reference machine, a rule whose input matches no segment of the word never changes it (NoMatchStutter), exhaustively on the small domain")
+    law_pipeline(run, "C06", ["planted"], 10 if run.tier == "thorough" else 5)
+
+
+def c14(run):
+    run.assumptions += TRUSTED
+    mc_job(run, "MC_Scan", "mc/MC_Scan.tla", "mc/MC_Scan%s.cfg" % ("_thorough" if run.tier == "thorough" else ""),
+           "M: on the reference machine a segment-only rule keeps the prosodic tier (ProsKept), exhaustively on the small domain")
+    law_pipeline(run, "C14", ["segonly", "prosonly"], 10 if run.tier == "thorough" else 5)
+
+
+def c07(run):
+    run.assumptions += TRUSTED
+    law_pipeline(run, "C07", ["identity"], 10 if run.tier == "thorough" else 5)
+
+
+def c08(run):
+    run.assumptions += TRUSTED
+    mc_job(run, "MC_Scan", "mc/MC_Scan.tla", "mc/MC_Scan%s.cfg" % ("_thorough" if run.tier == "thorough" else ""),
+           "M: WordOK is an invariant of the reference machine's transform actions (WordInv)")
+    law_pipeline(run, "C08", ["any"], 10 if run.tier == "thorough" else 6)
+
+
+def c02(run):
+    run.assumptions += TRUSTED[:1] + ["step budget = 400 x (|word|+2)^(1+e) x (|rule|+2), e = number of ellipses/unbounded optionals/structures (capped at 3)",
+                                      "raw character noise is produced by the harness, not by TLC (TLC is not a fuzzer); the specification only states what must hold of the executions"]
+    mc_job(run, "MC_Scan", "mc/MC_Scan.tla", "mc/MC_Scan%s.cfg" % ("_thorough" if run.tier == "thorough" else ""),
+           "M: the reference machine makes progress at every step and terminates (Progress, Terminates under weak fairness)")
+    law_pipeline(run, "C02", ["any"], 6 if run.tier == "thorough" else 4)
+
+
 PROPS = {
+    "C02": (c02, "model_checking"),
+    "C06": (c06, "model_checking"),
+    "C07": (c07, "model_checking"),
+    "C08": (c08, "model_checking"),
+    "C14": (c14, "model_checking"),
     "C10": (c10, "model_checking"),
     "C11": (c11, "model_checking"),
     "C16": (c16, "model_checking"),
